@@ -152,3 +152,58 @@ Proof.
   eexists. split; [vm_compute; reflexivity|]. split; [vm_compute; reflexivity|].
   eexists. split; [vm_compute; reflexivity|]. eexists. split; vm_compute; reflexivity.
 Qed.
+
+(* ---------- extending __all__: `__all__ += x`, `__all__.extend(x)`, `__all__.append(x)` ---------- *)
+(* the three forms are one and the same statement (by the regenerated tables: visit_augassign, visit_expr with
+   all_receiver / all_methods); a call of another method, on another receiver, or without argument is no statement *)
+Theorem all_extension_forms : forall items,
+  lower (RNode "AugAssign" (PAug true items) []) = Some (SAugAll items) /\
+  lower (RNode "Expr" (PCall "__all__" "extend" true items) []) = Some (SAugAll items) /\
+  lower (RNode "Expr" (PCall "__all__" "append" true items) []) = Some (SAugAll items) /\
+  lower (RNode "Expr" (PCall "__all__" "extend" false items) []) = Some SOther /\
+  lower (RNode "Expr" (PCall "__all__" "remove" true items) []) = Some SOther /\
+  lower (RNode "Expr" (PCall "" "extend" true items) []) = Some SOther /\
+  lower (RNode "Expr" (PCall "other" "extend" true items) []) = Some SOther.
+Proof. intros. repeat split; vm_compute; reflexivity. Qed.
+
+(* its effect, wherever it is evaluated: on a module whose exports are already a list, and when every item is a string
+   or a name, the items are appended; in every other situation (class body, __init__ body, no `__all__ = ...` seen yet,
+   an item that is another constant) nothing at all changes; members, imports and events are never touched *)
+Theorem all_extension_effect : forall items g pk nd own up,
+  let r := sem_stmt g pk nd (SAugAll items) own up in
+  l_up r = up /\ l_events r = [] /\ l_err r = None /\
+  fmembers (l_own r) = fmembers own /\ fimports (l_own r) = fimports own /\
+  fexports (l_own r) =
+    match fkind own, fexports own with
+    | InModule, Some ex => if items_ok items then Some (ex ++ items) else Some ex
+    | _, e => e
+    end.
+Proof.
+  intros. unfold r. simpl. unfold op_augall.
+  destruct (fkind own) eqn:K; destruct (fexports own) eqn:E; try destruct (items_ok items);
+    cbn [l_up l_events l_err l_own fmembers fimports fexports set_exports]; rewrite ?E; repeat split; reflexivity.
+Qed.
+
+(*  1 __all__.extend(["lost"])        (no __all__ yet: lost)
+    2 __all__ = ["a"]
+    3 __all__.extend(["b", c])
+    4 __all__.append("d")
+    5 __all__ += ["e"]
+    6 class K:
+    7     __all__.append("no")        (not a module: nothing)
+    8 if x:
+    9     __all__.extend(os.__all__)  (still the module)
+   10 __all__.append(1)               (not a name: nothing)                                        *)
+Definition all_sample : list rnode :=
+  [RNode "Expr" (PCall "__all__" "extend" true ["s:lost"]) [];
+   RNode "Assign" (PAssign 2 2 [RT "Name" "__all__" []] ["s:a"]) [];
+   RNode "Expr" (PCall "__all__" "extend" true ["s:b"; "n:c"]) [];
+   RNode "Expr" (PCall "__all__" "append" true ["s:d"]) [];
+   RNode "AugAssign" (PAug true ["s:e"]) [];
+   RNode "ClassDef" (PCls 6 6 7 "K" []) [[RNode "Expr" (PCall "__all__" "append" true ["s:no"]) []]];
+   RNode "If" (PIf "x") [[RNode "Expr" (PCall "__all__" "extend" true ["n:__all__"]) []]; []];
+   RNode "Expr" (PCall "__all__" "append" true ["c:1"]) []].
+Example all_sample_ok :
+  exists body r, lower_module all_sample = Some body /\ run_visit "m" body = Ok r /\
+    r_exports r = Some ["s:a"; "s:b"; "n:c"; "s:d"; "s:e"; "n:__all__"].
+Proof. eexists. eexists. split; [vm_compute; reflexivity|]. split; vm_compute; reflexivity. Qed.
